@@ -1,6 +1,6 @@
 """Registry of checks: which translation units / variants / shards make up each property's check."""
 
-def dims(tier, quick=(1, 2, 3, 4), thorough=tuple(range(1, 11))):
+def dims(tier, quick=(1, 2, 3, 4, 8), thorough=tuple(range(1, 11))):
     return thorough if tier == "thorough" else quick
 
 def job(src, name, defs=(), **kw):
@@ -9,7 +9,7 @@ def job(src, name, defs=(), **kw):
     return j
 
 def per_dim(src, stem, tier, **kw):
-    q = kw.pop("quick", (1, 2, 3, 4)); t = kw.pop("thorough", tuple(range(1, 11)))
+    q = kw.pop("quick", (1, 2, 3, 4, 8)); t = kw.pop("thorough", tuple(range(1, 11)))   # 8: the first dimension of DIM >= 8 code paths
     return [job(src, "%s_d%d" % (stem, d), ["-DVDIM=%d" % d], weight=d, **kw) for d in dims(tier, q, t)]
 
 ASSUME_COMMON = [
@@ -24,7 +24,7 @@ CHECKS["C01"] = {
     "engine": "E1 lattice explorer",
     "jobs": lambda tier: per_dim("C01.cpp", "C01", tier),
     "rule": "unit = (order, duration alphabet, N, duration word, scale, start time); every unit runs the full data basis (each unit waypoint / boundary component, rotated per coordinate) + generic dyadic data through all 4 construction routes; distinct = distinct axis tuples; non-trivial = N >= 2 (a linear system is solved)",
-    "bounds": {"quick": "3 orders x DIM 1..4 x N 1..5 x all 3^N duration words (dyadic alphabet; plus the nearly-equal alphabet {1-2^-21, 1, 1+2^-22} for N <= 4) x 3 start times x full data basis x 5 routes",
+    "bounds": {"quick": "3 orders x DIM {1,2,3,4,8} x N 1..5 x all 3^N duration words (dyadic alphabet; plus the nearly-equal alphabet {1-2^-21, 1, 1+2^-22} for N <= 4) x 3 start times x full data basis x 5 routes",
                "thorough": "3 orders x DIM 1..10 x (N 1..8 all 3^N words; N 9,10 all 2^N words) x 3 scales x 4 start times + jittered alphabet N<=6, full data basis x 4 routes"},
     "thresholds": {"interp/bc scaled residual (cubic/quintic/septic)": [1e-12, 1e-11, 1e-9], "routes": "bitwise"},
     "assumptions": ASSUME_COMMON,
@@ -38,7 +38,7 @@ CHECKS["C02"] = {
     "engine": "E1 lattice explorer",
     "jobs": lambda tier: per_dim("C02.cpp", "C02", tier),
     "rule": "unit = (order, duration alphabet, N, duration word, scale); every unit compares the published coefficients for the full data basis + generic data with the dense long-double solve R1 and checks continuity of derivatives 0..2s-2 at every interior knot; for N<=3 (quick) / N<=4 (thorough), DIM<=2 the oracle R1 is itself cross-checked against the KKT minimiser R1'; non-trivial = N >= 2",
-    "bounds": {"quick": "3 orders x DIM 1..4 x N 1..5 x all 3^N duration words (dyadic alphabet; plus the nearly-equal alphabet {1-2^-21, 1, 1+2^-22} for N <= 4) x full data basis",
+    "bounds": {"quick": "3 orders x DIM {1,2,3,4,8} x N 1..5 x all 3^N duration words (dyadic alphabet; plus the nearly-equal alphabet {1-2^-21, 1, 1+2^-22} for N <= 4) x full data basis",
                "thorough": "3 orders x DIM 1..10 x (N 1..8 all 3^N words; N 9,10 all 2^N words) x 3 scales + jittered alphabet N<=6, full data basis"},
     "thresholds": {"coef vs R1, scaled by the solution magnitude (cubic/quintic/septic)": [3e-9, 1e-8, 1e-6], "continuity": [1e-9, 3e-7, 1e-5], "R1' vs R1": 1e-9},
     "assumptions": ASSUME_COMMON + ["'minimises among all sufficiently smooth curves' is decided through the observable clause (C^{2s-2} continuity + agreement with the unique minimiser) and the finite-dimensional variational cross-check R1'"],
@@ -48,10 +48,10 @@ CHECKS["C02"] = {
 
 CHECKS["C18"] = {
     "engine": "E1 lattice explorer",
-    "jobs": lambda tier: per_dim("C18.cpp", "C18", tier, quick=(1,), thorough=(1, 3)),
+    "jobs": lambda tier: per_dim("C18.cpp", "C18", tier, quick=(1, 4, 8), thorough=(1, 3, 4, 8)),
     "rule": "unit = (order, ratio r, alphabet, N, duration word); durations {1/sqrt r, sqrt r} (all 2^N placements) and {1/sqrt r, 1, sqrt r} (all 3^N); every unit computes, in long double from the published coefficients, the scaled residual of every defining equation (interpolation, boundary state k, continuity of derivative k) for the full data basis + generic data + the generic data in a frame far from the origin (offsets 482113 / 4431207); non-trivial = the word contains both the shortest and the longest letter (ratio actually attained)",
-    "bounds": {"quick": "3 orders x DIM 1 x r in {2,4,8,16,32,50,64,100} x (N 2..8 all 2^N words + N 2..4 all 3^N words at scale 1; N 2..7 two-letter words at scales 2^-6, 2^6, 2^10) x full data basis",
-               "thorough": "3 orders x DIM {1,3} x r in {2,4,8,16,32,50,64,100} x (N 2..12 all 2^N words + N 2..7 all 3^N words at scale 1; N 2..7 two-letter words at scales 2^-6, 2^6, 2^10) x full data basis"},
+    "bounds": {"quick": "3 orders x DIM {1,4,8} x r in {2,4,8,16,32,50,64,100} x (N 2..8 all 2^N words + N 2..4 all 3^N words at scale 1; N 2..7 two-letter words at scales 2^-6, 2^6, 2^10) x full data basis",
+               "thorough": "3 orders x DIM {1,3,4,8} x r in {2,4,8,16,32,50,64,100} x (N 2..12 all 2^N words + N 2..7 all 3^N words at scale 1; N 2..7 two-letter words at scales 2^-6, 2^6, 2^10) x full data basis"},
     "thresholds": {"scaled residual (the property's own)": 1e-3},
     "assumptions": ASSUME_COMMON,
     "technique": TECH_E1 + "; oracle = long-double residuals of the defining equations; failures matched tuple-by-tuple against known_findings.txt",
@@ -59,14 +59,14 @@ CHECKS["C18"] = {
 }
 
 def grad_jobs(prop, tier):
-    q = (1, 2, 3, 4); t = (1, 2, 3, 4, 5, 10)
+    q = (1, 2, 3, 4, 8); t = (1, 2, 3, 4, 5, 8, 10)
     return [job("grad_checks.cpp", "%s_d%d" % (prop, d), ["-DVDIM=%d" % d, "-DVPROP=%d" % int(prop[1:])], weight=d) for d in dims(tier, q, t)]
 
 CHECKS["C05"] = {
     "engine": "E1 lattice explorer",
     "jobs": lambda tier: grad_jobs("C05", tier),
     "rule": "unit = (order, N, duration word, scale); every unit calls propagateGrad with EVERY unit upstream vector (each coefficient entry of each coordinate, each duration) for the full data basis + generic data and compares each output with the exact Jacobian of the reference construction map (jets through the dense long-double solve); plus, per unit, all call sequences of length <= 3 over 4 upstream vectors vs a fresh object (bitwise), value vs reference overload (bitwise), linearity; non-trivial = N >= 2",
-    "bounds": {"quick": "3 orders x DIM 1..4 x (N 1..4 all 3^N words, N 5 all 2^N words) x full data basis x all unit upstream vectors",
+    "bounds": {"quick": "3 orders x DIM {1,2,3,4,8} x (N 1..4 all 3^N words, N 5 all 2^N words) x full data basis x all unit upstream vectors",
                "thorough": "3 orders x DIM {1,2,3,4,5,10} x (N 1..6 all 3^N words; N 7..9 all 2^N words) x 3 scales x full data basis x all unit upstream vectors"},
     "thresholds": {"normalised Jacobian error (cubic/quintic/septic)": [1e-8, 1e-7, 1e-6], "history/overload": "bitwise", "linearity": "10 x the Jacobian threshold (rounding of the same solves)"},
     "assumptions": ASSUME_COMMON,
@@ -77,7 +77,7 @@ CHECKS["C06"] = {
     "engine": "E1 lattice explorer",
     "jobs": lambda tier: grad_jobs("C06", tier),
     "rule": "unit = (order, N, duration word, scale); every unit compares getEnergyGrad (and the individual getters, bitwise among themselves), the partial gradients (vs exact formulas on the published coefficients) and propagateGrad(partials) with d(reference energy)/d(input) obtained from the reference model only, for the data basis, basis pairs (energy is quadratic) and generic data; non-trivial = N >= 2",
-    "bounds": {"quick": "3 orders x DIM 1..4 x (N 1..4 all 3^N words, N 5 all 2^N words) x basis + neighbouring basis pairs + generic",
+    "bounds": {"quick": "3 orders x DIM {1,2,3,4,8} x (N 1..4 all 3^N words, N 5 all 2^N words) x basis + neighbouring basis pairs + generic",
                "thorough": "3 orders x DIM {1,2,3,4,5,10} x (N 1..7 all 3^N words; N 8,9 all 2^N words) x 3 scales x basis + all basis pairs + generic"},
     "thresholds": {"normalised gradient error (cubic/quintic/septic)": [1e-7, 1e-7, 1e-6], "partials vs closed form": 1e-11},
     "assumptions": ASSUME_COMMON,
@@ -89,7 +89,7 @@ CHECKS["C04"] = {
     "engine": "E1 lattice explorer",
     "jobs": lambda tier: per_dim("C04.cpp", "C04", tier),
     "rule": "(a) injected coefficients: unit = (order, 1 or 3 segments, pair of coefficient rows (j,k), one of 9 + 4 extreme durations 2^-40..2^20) -> getEnergy vs exact product integration; by bilinearity in the coefficients and polynomial identity in T (degree <= 7 < 9 points) this fixes every weight and power of the closed form; (b) public route: unit = (order, N, duration word, scale) -> getEnergy vs exact integral of the published polynomials for the data basis + generic data, non-negativity, sum over coordinates (vs D one-dimensional splines); non-trivial = the unit involves at least one coefficient row entering the energy",
-    "bounds": {"quick": "3 orders x DIM 1..4; injected: all row pairs x 13 T x {1,3} segments; public: (N 1..4 all 3^N words, N 5,6 all 2^N) x 6 scales 2^-30..2^10 x full data basis, fresh + re-fitted object",
+    "bounds": {"quick": "3 orders x DIM {1,2,3,4,8}; injected: all row pairs x 13 T x {1,3} segments; public: (N 1..4 all 3^N words, N 5,6 all 2^N) x 6 scales 2^-30..2^10 x full data basis, fresh + re-fitted object",
                "thorough": "3 orders x DIM 1..10; injected as quick; public: (N 1..7 all 3^N words, N 8..10 all 2^N) x 8 scales 2^-30..2^10 x full data basis, fresh + re-fitted object"},
     "thresholds": {"relative to sum of |terms| of the exact integral": 1e-12},
     "assumptions": ASSUME_COMMON + ["injected-coefficient route writes the private members coeffs_/time_segments_/time_powers_ through -fno-access-control"],
@@ -110,9 +110,9 @@ CHECKS["C13"] = {
 
 CHECKS["C14"] = {
     "engine": "E1 lattice explorer",
-    "jobs": lambda tier: per_dim("C14.cpp", "C14", tier, quick=(1, 2, 3, 4), thorough=(1, 2, 3, 4, 5, 10)),
+    "jobs": lambda tier: per_dim("C14.cpp", "C14", tier, quick=(1, 2, 3, 4, 8), thorough=(1, 2, 3, 4, 5, 8, 10)),
     "rule": "unit = (order, N, duration word, scale); every unit applies, to the full data basis + generic dyadic data: two start-time shifts, fresh and by update() (coefficients/energy/gradients/energy partials bitwise unchanged, knots shifted; values of every derivative order at start + u, the sampled arc length through both overloads and the time grid bitwise unchanged relative to the start), a map-frame shift 1.7e9 + 0.3 on non-dyadic durations, a dyadic translation (row c0 translated, rest unchanged), data x 2^k (exact), durations x 2^k for k in {-6,-2,3,10} with boundary derivatives rescaled (exact, incl. gradient scaling laws), and time reversal (curve on a probe grid for all derivative orders, energy, mirrored gradients); non-trivial = N >= 2 or non-palindromic durations",
-    "bounds": {"quick": "3 orders x D 1..4 x (N 1..4 all 3^N words, N 5,6 all 2^N)", "thorough": "3 orders x D {1,2,3,4,5,10} x (N 1..8 all 3^N words, N 9,10 all 2^N) x 3 scales"},
+    "bounds": {"quick": "3 orders x D {1,2,3,4,8} x (N 1..4 all 3^N words, N 5,6 all 2^N)", "thorough": "3 orders x D {1,2,3,4,5,8,10} x (N 1..8 all 3^N words, N 9,10 all 2^N) x 3 scales"},
     "thresholds": {"power-of-two relations and start shift": "bitwise", "translation / reversal (C02 metric)": [3e-9, 1e-8, 1e-6]},
     "assumptions": ASSUME_COMMON,
     "technique": TECH_E1 + "; metamorphic oracles (no reference model): exact power-of-two scaling laws, shift invariance, time-reversal symmetry",
